@@ -21,6 +21,7 @@ TEXT = {
     "a1": 'export type M = { x: "a1" };\n',
     "a2": 'export type M = { x: "a2" };\n',
     "a3imp": 'import { N } from "./m2";\nexport type M = { x: "a3", n: N };\n',
+    "a4imp": 'import { N } from "./m2";\nexport type M = { x: "a4", n: N };\n',
     "aunres": 'export type Other = string;\n',
     "abroken": 'export type M = {{{{ \n',
     "b1": 'export type N = "b1";\n',
@@ -28,19 +29,21 @@ TEXT = {
     "bbroken": 'export type N = ((( ;\n',
 }
 PATH = {"entry": "entry.ts", "m1": "m1.ts", "m2": "m2.ts"}
-VARIANTS = {"entry": ["e1", "e2", "ebroken"], "m1": ["a1", "a2", "a3imp", "aunres", "abroken"], "m2": ["b1", "b2", "bbroken"]}
+VARIANTS = {"entry": ["e1", "e2", "ebroken"], "m1": ["a1", "a2", "a3imp", "a4imp", "aunres", "abroken"], "m2": ["b1", "b2", "bbroken"]}
 
 
-def model(tag, deviations):
+def model(tag, deviations, design=False):
+    """design=True: the intended design ({} deviations) must satisfy the invariants on the complete graph;
+    design=False: the machine as implemented (open deviations) generates one shortest history per state"""
     d = os.path.join(vlib.WORK, tag)
     os.makedirs(d, exist_ok=True)
     cfg = os.path.join(d, "MC_Watch.cfg")
     dev = "{" + ", ".join(json.dumps(x) for x in sorted(deviations)) + "}"
     vlib.write_cfg(cfg, spec="MSpec", constants={"MaxSteps": 1000, "Deviations": dev},
-                   invariants=["HistoryIndependent", "CacheCoherent", "EmitInv"], view="View")
-    r = vlib.run_tlc(cfg, os.path.join(vlib.VERIF, "spec/mc/MC_Watch.tla"), workers=8, heap="4g", tag="watch")
+                   invariants=(["HistoryIndependent", "CacheCoherent"] if design else ["EmitInv"]), view="View")
+    r = vlib.run_tlc(cfg, os.path.join(vlib.VERIF, "spec/mc/MC_Watch.tla"), workers=8, heap="6g", tag="watch")
     if r["violated"] or not r["ok"]:
-        raise ToolError("Watch.tla: the design invariant fails:\n" + r["tail"])
+        raise ToolError("Watch.tla: " + ("the design invariant fails" if design else "history generation failed") + ":\n" + r["tail"])
     return vlib.tagged_lines(r["lines"], "HIST"), r
 
 
@@ -59,6 +62,7 @@ def run(prop, tier):
     vlib.clear_replays(prop, tier)
     open_k = vlib.open_findings("C14")
     deviations = {k["deviation"] for k in open_k if k.get("deviation")}
+    _, dr = model(tag + "-design", set(), design=True)
     hists, mr = model(tag, deviations)
     histories = [h["hist"] for h in hists if h["hist"]]
     # every edge of the graph: extend each state's history by every possible next step
@@ -68,14 +72,22 @@ def run(prop, tier):
         for f, vs in VARIANTS.items():
             for c in vs:
                 edge.append(h + [{"op": "edit", "f": f, "c": c}])
+        edge.append(h + [{"op": "delete", "f": "m2", "c": "missing"}])
+        for c in VARIANTS["m2"]:
+            edge.append(h + [{"op": "create", "f": "m2", "c": c}])
     rng = random.Random(vlib.seed())
     walks = []
     nwalk, depth = (300, 30) if tier == "quick" else (5000, 40)
     for _ in range(nwalk):
         w = []
         for _ in range(depth):
-            if rng.random() < 0.3:
+            x = rng.random()
+            if x < 0.3:
                 w.append({"op": "rebuild", "f": "", "c": ""})
+            elif x < 0.38:
+                w.append({"op": "delete", "f": "m2", "c": "missing"})
+            elif x < 0.46:
+                w.append({"op": "create", "f": "m2", "c": rng.choice(VARIANTS["m2"])})
             else:
                 f = rng.choice(list(VARIANTS))
                 w.append({"op": "edit", "f": f, "c": rng.choice(VARIANTS[f])})
@@ -84,14 +96,23 @@ def run(prop, tier):
     log(f"[watch] {mr['distinct']} model states, {len(edge)} edge-cover histories, {len(walks)} random walks")
 
     def legal(h):
-        # drop edits that do not change the file (the model requires a change); keep order
+        # drop steps that are not enabled in the model (edit without change or of a missing file, create of an existing file,
+        # delete of a missing one); keep order
         cur = {"entry": "e1", "m1": "a1", "m2": "b1"}
         out = []
         for s in h:
             if s["op"] == "edit":
-                if cur[s["f"]] == s["c"]:
+                if cur[s["f"]] == s["c"] or cur[s["f"]] == "missing":
                     continue
                 cur[s["f"]] = s["c"]
+            elif s["op"] == "create":
+                if cur[s["f"]] != "missing":
+                    continue
+                cur[s["f"]] = s["c"]
+            elif s["op"] == "delete":
+                if cur[s["f"]] == "missing":
+                    continue
+                cur[s["f"]] = "missing"
             out.append(s)
         return out
 
@@ -122,12 +143,17 @@ def run(prop, tier):
             nsteps += 1
     judged, consumed, tstates = judge(traces, tag, deviations)
     neg = negative_control(traces, tag, deviations)
-    violations = []
+    violations, known_hits = [], []
+    dev_to_k = {k["deviation"]: k for k in open_k if k.get("deviation")}
     seen = set()
     for j in judged:
         t = j["_trace"]
         ln = t[j["line"] - 1]
         h = allh[ln["hid"]]
+        if j["kind"].startswith("known:") and j["kind"][6:] in dev_to_k:
+            kf = dev_to_k[j["kind"][6:]]
+            known_hits.append((kf["id"], kf["what"]))
+            continue
         k = (j["kind"], ln["hid"])
         if k in seen:
             continue
@@ -138,18 +164,19 @@ def run(prop, tier):
         violations.append((path, f"{j['kind']} after history {[(s['op'], s['f'], s['c']) for s in h][:8]}"))
         if len(violations) >= 20:
             break
-    cov = {"states": mr["distinct"] + tstates, "transitions": mr["states"] + consumed, "traces_validated_against_impl": len(allh),
+    cov = {"states": mr["distinct"] + dr["distinct"] + tstates, "transitions": mr["states"] + dr["states"] + consumed,
+           "design_model_states": dr["distinct"], "known_findings_hit": sorted({k for k, _ in known_hits}), "traces_validated_against_impl": len(allh),
            "samples": [{"history": allh[len(edge) // 2]}, {"history": allh[-1][:6]}],
            "model_states": mr["distinct"], "edge_cover_histories": len(edge), "random_walks": len(walks), "steps_replayed": nsteps,
            "design_invariants": "HistoryIndependent, CacheCoherent on the complete state graph",
            "binding_selftest": neg, "exhaustive": True,
-           "rule": "complete state graph of Watch.tla (3 files; 3/5/3 content variants incl. unresolvable and broken); one shortest history per "
+           "rule": "complete state graph of Watch.tla (3 files; 3/6/3 content variants incl. unresolvable and broken; m2 can be deleted and created); one shortest history per "
                    "state extended by every possible step (edge cover) + seeded random walks"}
     vlib.write_evidence(prop, tier, cov, time.time() - t0, len(violations),
                         ["the native host (cfg beff_verif) stands for the JS imports of the wasm module; the watch loop of commandeer.ts "
                          "(update only for watched files, then rebuild) is transcribed in the session binary",
                          "fresh process = new thread with an empty BUNDLER (thread-local) and the current disk"])
-    vlib.finish(prop, violations, [])
+    vlib.finish(prop, violations, known_hits)
 
 
 def judge(traces, tag, deviations):
